@@ -38,6 +38,9 @@ type c14Case struct {
 	// Packed: the refs are packed (git pack-refs --all, what git gc does) before the removal, so that they
 	// live in .git/packed-refs and not as loose files
 	Packed bool `json:"packed,omitempty"`
+	// OnlyRemote (entity API only): the victim was fetched but never merged, or its local ref is gone already: it is
+	// known through its remote-tracking refs only
+	OnlyRemote bool `json:"only_remote,omitempty"`
 }
 
 func genC14(t *rapid.T) c14Case {
@@ -59,6 +62,11 @@ func genC14(t *rapid.T) c14Case {
 	}
 	c.OthersPushed = rapid.Bool().Draw(t, "othersPushed")
 	c.Packed = rapid.IntRange(0, 2).Draw(t, "packed") == 0
+	anyHolder := false
+	for _, p := range c.PushedTo {
+		anyHolder = anyHolder || p
+	}
+	c.OnlyRemote = c.Mode == "dag" && anyHolder && rapid.IntRange(0, 3).Draw(t, "onlyRemote") == 0
 	return c
 }
 
@@ -199,6 +207,11 @@ func runC14(tb report.TB, rep *report.Reporter, c c14Case) {
 		}
 		return out
 	}
+	if c.OnlyRemote {
+		if err := repo.RemoveRef(victimRefPrefix + victimId); err != nil {
+			tb.Fatalf("harness: %v", err)
+		}
+	}
 	if c.Packed {
 		if res := RunGit(main, "pack-refs", "--all"); res.Code != 0 {
 			tb.Fatalf("harness: git pack-refs: %s", res.Out)
@@ -220,7 +233,7 @@ func runC14(tb report.TB, rep *report.Reporter, c c14Case) {
 	}
 	pushedClass := fmt.Sprintf("remotes:%d/holding:%d", c.NRemotes, holders)
 	rep.Case(fmt.Sprintf("%s|%s|%s|o%d|s%d|e%d", c.Entity, c.Mode, pushedClass, c.Others, c.SharePfx, c.Edits), holders >= 1 && c.Others >= 1,
-		[]string{"entity:" + c.Entity, "mode:" + c.Mode, pushedClass, fmt.Sprintf("packed-refs:%v", c.Packed)}, c)
+		[]string{"entity:" + c.Entity, "mode:" + c.Mode, pushedClass, fmt.Sprintf("packed-refs:%v", c.Packed), fmt.Sprintf("known-through-remote-tracking-refs-only:%v", c.OnlyRemote)}, c)
 
 	// ---- the removal
 	_ = repo.Close()
